@@ -12,8 +12,10 @@ PROVED = ['Vsm <= Vsm_max (all inputs); Cvr_max in [0.05, 0.66]; Vsm_max >= 0 an
           'Vsm at the reported Cvr_max lies in [0.998 Vsm_max, Vsm_max] (both nomograph branches: 6.75*0.333*0.667^2 and 6.75*0.666^2*0.334)',
           '0.25 <= M <= 1.7; V50 >= 0 whatever the friction-factor iteration does, hence V50-model Erhg non-increasing in line speed for physical inputs',
           'Wilson-stratified Erhg non-increasing in line speed on E (L(v)^0.26 / v decreasing; friction lemma shared with C04)',
-          'both gradients exceed the water gradient whenever the excess gradient is positive (Rsd > 0, Cv > 0)']
-HYPOTHESES = ['positivity of the two excess gradients on E (from Vsm > 0 resp. V50 > 0; monitored)']
+          'both gradients exceed the water gradient whenever the excess gradient is positive (Rsd > 0, Cv > 0)',
+          'Wilson stratified: Vsm > 0 for physical inputs with a positive friction factor and 0 < Cv/Cvb < 1, hence Erhg > 0 and the gradient exceeds '
+          'the water gradient at EVERY point of E, no positivity hypothesis (C20_Vsm_pos, C20_stratified_exceeds_water)']
+HYPOTHESES = ['positivity of the V50 excess gradient (V50 > 0 needs the friction-factor iteration to leave through its exit, i.e. to terminate; monitored)']
 MONITORED = ['V50 iteration terminates; result satisfies its implicit friction-factor equation within 0.5 %']
 RULE = ('E with d <= 0.1 Dp, musf in {0.31,0.4,0.415}, vls in [0.5,10], d85/d50 in (1.02,6]; both branches of the nomograph fit forced '
         '(Cvr_max <= 0.33 and > 0.33); non-trivial = distinct (branch, friction-limited or not, musf) classes')
@@ -90,6 +92,9 @@ def monitor(ctx, extended=False):
             hs = WS.stratified_head_loss(*w)
             if not hs > il:
                 ctx.violation(f'Wilson stratified gradient {hs!r} does not exceed the water gradient {il!r}', inp, key='exceeds-water')
+            pl_, ps_ = Ho.fluid_pressure_loss(vls, Dp, eps, nu, rhol), WS.stratified_pressure_loss(*w)
+            if not ps_ > pl_:
+                ctx.violation(f'Wilson stratified pressure gradient {ps_!r} does not exceed the water pressure gradient {pl_!r}', inp, key='exceeds-water')
             v2 = min(10.0, vls * ctx.rng.choice([1 + 1e-6, 1.01, 1.3, 2.0]))
             e1, e2 = WS.Erhg(*w), WS.Erhg(v2, *w[1:])
             if v2 > vls and e2 > e1 * (1 + 1e-12):
@@ -120,6 +125,9 @@ def monitor(ctx, extended=False):
             hv = WV.heterogeneous_head_loss(vls, Dp, d, d85, eps, nu, rhol, rhos, Cv, musf)
             if not hv > il:
                 ctx.violation(f'Wilson V50 gradient {hv!r} does not exceed the water gradient {il!r}', dict(inp, d85=d85), key='exceeds-water')
+            pv_ = WV.heterogeneous_pressure_loss(vls, Dp, d, d85, eps, nu, rhol, rhos, Cv, musf)
+            if not pv_ > Ho.fluid_pressure_loss(vls, Dp, eps, nu, rhol):
+                ctx.violation(f'Wilson V50 pressure gradient {pv_!r} does not exceed the water pressure gradient', dict(inp, d85=d85), key='exceeds-water')
             e1, e2 = WV.Erhg(vls, Dp, d, d85, eps, nu, rhol, rhos, musf), WV.Erhg(v2, Dp, d, d85, eps, nu, rhol, rhos, musf)
             if v2 > vls and e2 > e1 * (1 + 1e-12):
                 ctx.violation(f'Wilson V50 Erhg rises with line speed: {e1!r} -> {e2!r}', dict(inp, d85=d85), key='erhg-rises')
